@@ -32,7 +32,7 @@ MANIFEST = {
     "text": "All programs in the bounded family are read by the real reader; character conservation, row integrity, ordering and exact end-to-start chaining are checked on each.",
     "note": "Bounds: rows per stream, three text shapes, three gaps, segment sequences up to length 2 (quick) / 3 (thorough).",
 }
-SHAPES = [lambda L: L + L.lower() + L + L.lower(), lambda L: L + L.lower() + " " + L + "d", lambda L: L, lambda L: (L + L.lower()) * 16]
+SHAPES = [lambda L: L + L.lower() + L + L.lower(), lambda L: L + L.lower() + " " + L + "d", lambda L: L, lambda L: (L + L.lower()) * 16, lambda L: "  " + L + L.lower() + " x"]
 LETTERS = "ABCDEFGHJK"
 GAPS = [0, 1, 30]
 
@@ -92,6 +92,11 @@ def build(segs, d, sep, gap):
     return "\n".join(out), rows
 
 
+# documents the reader refuses (a 40-column row; a mangled timecode in the middle): used as earlier reads of a reused reader
+REJECTED_DOC = "Scenarist_SCC V1.0\n\n00:00:01:00\t9425 94ad 9470 " + " ".join([C.chars("w", "w")] * 20) + "\n\n00:00:03:00\t9425 94ad 9470 " + C.chars("o", "k") + "\n"
+MANGLED_DOC = "Scenarist_SCC V1.0\n\n00:00:01:00\t9425 94ad 9470 " + C.chars("o", "k") + "\n\n00:00:0x:00\t9425 94ad 9470 " + C.chars("n", "o") + "\n"
+
+
 def evaluate(segs, d, sep, gap, chain, disturb=False):
     from pycaption import SCCReader
 
@@ -100,10 +105,11 @@ def evaluate(segs, d, sep, gap, chain, disturb=False):
     if disturb:
         # reuse runs only: the shared reader first reads the document with non-default options (result ignored); with a
         # new reader per call this has no effect on the read that is judged
-        try:
-            shared.obj(SCCReader).read(doc, offset=20, simulate_roll_up=True)
-        except Exception:  # noqa
-            pass
+        for bad_doc, kw in ((doc, {"offset": 20, "simulate_roll_up": True}), (REJECTED_DOC, {}), (MANGLED_DOC, {})):
+            try:
+                shared.obj(SCCReader).read(bad_doc, **kw)
+            except Exception:  # noqa
+                pass
     try:
         cs = shared.obj(SCCReader).read(doc)
         caps = list(cs.get_captions("en-US"))
@@ -113,6 +119,7 @@ def evaluate(segs, d, sep, gap, chain, disturb=False):
             return [], "rejected-flash"
         return [(f"raises:{type(e).__name__}", {"err": str(e)[:200], "doc": doc})], "raises"
     got_lines = []
+    raw_lines = []
     for c in caps:
         cur = ""
         cl = []
@@ -124,6 +131,7 @@ def evaluate(segs, d, sep, gap, chain, disturb=False):
                 cur = ""
         cl.append(cur)
         got_lines.append([" ".join(l.split()) for l in cl])
+        raw_lines += cl
     sent = "".join("".join(r.split()) for r in rows)
     got = "".join("".join(l.split()) for cl in got_lines for l in cl)
     if got != sent:
@@ -135,6 +143,13 @@ def evaluate(segs, d, sep, gap, chain, disturb=False):
             if " ".join(r.split()) not in flat:
                 v.append(("row-split", {"row": r, "lines": got_lines, "doc": doc}))
                 break
+        else:
+            # blanks transmitted in front of a row's text are characters too (indentation): the row comes out with them
+            for r in rows:
+                lead = len(r) - len(r.lstrip(" "))
+                if lead and not any(x.rstrip() == r.rstrip() for x in raw_lines):
+                    v.append(("leading-blanks-of-a-row-lost", {"row": r, "lines": raw_lines, "doc": doc}))
+                    break
     times = [(c.start, c.end) for c in caps]
     for i, (s, e) in enumerate(times):
         if not (s < e):
@@ -243,6 +258,7 @@ def run_shard(d):
         n = d["n"]
         shape_sets = list(itertools.product(range(3), repeat=n)) if n <= 4 else [tuple((i + j) % 3 for i in range(n)) for j in range(3)] + [tuple([0] * n), tuple([2] * n)]
         shape_sets += [tuple(3 if i == j else (i % 3) for i in range(n)) for j in range(n)]  # one row uses all 32 columns
+        shape_sets += [tuple(4 if i == j else (i % 3) for i in range(n)) for j in range(n)] + [tuple([4] * n)]  # indented rows
         for shapes in shape_sets:
             for base_pat in (0, 1, 2, 3):
                 for every in (True, False):
@@ -255,6 +271,7 @@ def run_shard(d):
         rowpats = [[15] * n, [14, 15] * n, list(range(1, 16))]
         shape_sets = list(itertools.product(range(3), repeat=n)) if n <= 4 else [tuple((i + j) % 3 for i in range(n)) for j in range(3)]
         shape_sets += [tuple(3 if i == j else (i % 3) for i in range(n)) for j in range(n)]
+        shape_sets += [tuple(4 if i == j else (i % 3) for i in range(n)) for j in range(n)] + [tuple([4] * n)]  # indented rows
         for shapes in shape_sets:
             texts = texts_for(shapes)
             # non-adjacent rows painted after one RDC: captions sharing their times (no chaining clause, but
